@@ -767,3 +767,83 @@ Example ex_more_flags :
   (* an update with the empty RRset removes *)
   query (run wit_zone [EWAcquire; EWOpen; EUpdate [2] 1 0; ECommit]) 1 [2] 1 = ANx (Some 1).
 Proof. repeat split; reflexivity. Qed.
+
+(* ---------------------------------------------------------------- no trace of an aborted version *)
+
+Lemma upto_versions c : forall n, n_upto c n -> Forall (fun v => v <= c) (n_versions n).
+Proof.
+  induction n as [rs sp ch IH] using znode_ind'. intros H. inversion H as [? ? ? H1 H2 H3]; subst.
+  cbn [n_versions]. rewrite !Forall_app. repeat split.
+  - rewrite Forall_forall. intros v Hin. apply in_flat_map in Hin. destruct Hin as [p [Hp Hv]].
+    apply in_map_iff in Hv. destruct Hv as [it [<- Hit]]. rewrite Forall_forall in H1. specialize (H1 p Hp). cbn in H1.
+    unfold le_all in H1. rewrite Forall_forall in H1. exact (H1 it Hit).
+  - unfold le_all in H2. rewrite Forall_forall in *. intros v Hin. apply in_map_iff in Hin. destruct Hin as [it [<- Hit]]. exact (H2 it Hit).
+  - rewrite Forall_forall. intros v Hin. apply in_flat_map in Hin. destruct Hin as [p [Hp Hv]].
+    rewrite Forall_forall in IH, H3. specialize (IH p Hp (H3 p Hp)). rewrite Forall_forall in IH. exact (IH v Hv).
+Qed.
+
+Lemma z_le_versions c s : z_le c s -> Forall (fun v => v <= c) (z_versions s).
+Proof.
+  intros [Ha Hn]. unfold z_versions. rewrite Forall_app. split.
+  - rewrite Forall_forall. intros v Hin. apply in_flat_map in Hin. destruct Hin as [p [Hp Hv]].
+    apply in_map_iff in Hv. destruct Hv as [it [<- Hit]]. rewrite Forall_forall in Ha. specialize (Ha p Hp). cbn in Ha.
+    unfold le_all in Ha. rewrite Forall_forall in Ha. exact (Ha it Hit).
+  - rewrite Forall_forall. intros v Hin. apply in_flat_map in Hin. destruct Hin as [p [Hp Hv]].
+    rewrite Forall_forall in Hn. pose proof (upto_versions c (snd p) (Hn p Hp)) as H. rewrite Forall_forall in H. exact (H v Hv).
+Qed.
+
+(* whenever no writer has the zone open, no entry of a version above the current
+   one is stored ANYWHERE in the tree -- under names that exist, that never existed
+   or that stopped existing in an abandoned version alike.  In particular an aborted
+   session leaves no marker of its version, so the next writer can reuse the number. *)
+Theorem no_marker_above_current : forall is evs,
+  ncommits evs + 2 < LIM -> stale_free evs ->
+  let s := run (build is) evs in
+  match z_writer s with
+  | None => Forall (fun v => v <= z_cur s) (z_versions s)
+  | Some wr => Forall (fun v => v <= z_cur s + 1) (z_versions s) /\ w_new wr = z_cur s + 1
+  end.
+Proof.
+  intros is evs Hlim Hsf s. pose proof (reachable_invariant is evs Hlim Hsf) as Hinv. fold s in Hinv.
+  unfold zinv in Hinv. destruct (z_writer s) as [wr|].
+  - destruct Hinv as [Hnew [_ Hq]]. split; [|exact Hnew]. apply z_le_versions.
+    destruct (w_dirty wr); [now apply z_q_le|apply (z_le_weaken (z_cur s)); [lia|exact Hq]].
+  - now apply z_le_versions.
+Qed.
+
+(* the write lock is held across commit(): a WriteZone kept after a commit (to be
+   re-opened for the next batch) still excludes every other writer, and it writes
+   the version after the one it just published *)
+Theorem lock_held_across_commit : forall s wr,
+  zinv s -> z_cur s + 2 < LIM -> z_writer s = Some wr ->
+  let s' := step s ECommit in
+  exists wr', z_writer s' = Some wr' /\ z_cur s' = z_cur s + 1 /\ w_new wr' = z_cur s' + 1 /\
+    step s' EWAcquire = s' /\
+    (forall rd tl, exists rest, trace s' rd (EWAcquire :: tl) = OPending :: rest) /\
+    z_writer (step s' EWOpen) = Some (mkw (w_new wr') true true).
+Proof.
+  intros s wr Hinv Hlim Hw s'.
+  destruct (step_inv s ECommit Hinv Hlim (or_intror eq_refl)) as [Hinv' [Hm [Hu _]]]. fold s' in Hinv', Hm, Hu.
+  assert (Hnew : w_new wr = z_cur s + 1) by (unfold zinv in Hinv; rewrite Hw in Hinv; exact (proj1 Hinv)).
+  assert (E : s' = publish s wr) by (unfold s'; cbn [step]; now rewrite Hw).
+  rewrite (publish_eq s wr Hnew ltac:(unfold LIM in Hlim; lia)) in E.
+  exists (mkw (z_cur s + 2) false false).
+  assert (Hw' : z_writer s' = Some (mkw (z_cur s + 2) false false)) by (rewrite E; reflexivity).
+  assert (Hc' : z_cur s' = z_cur s + 1) by (rewrite E; reflexivity).
+  destruct (writers_serialised s' _ Hinv' Hw') as [H1 [H2 H3]].
+  split; [exact Hw'|split; [exact Hc'|split; [rewrite Hc'; cbn [w_new]; lia|split; [exact H1|split; [exact H3|]]]]].
+  cbn [step]. rewrite Hw'. reflexivity.
+Qed.
+
+Example ex_reopen_two_writers :
+  trace wit_zone [] [EWAcquire; EWOpen; EUpdate [2] 1 21; ECommit; EWAcquire; EWOpen; EUpdate [2] 1 22; ECommit; EDrop; EWAcquire; EDump]
+  = [OGranted; OPending; OGranted; ODump [0; 2; 1; 0]].
+Proof. reflexivity. Qed.
+
+Example ex_abort_after_removing_everything :
+  let z := build [IRrset [] 6 1; IRrset [2; 3] 1 11] in
+  (* the aborted version removes all data of 3.2 (the name stops existing in it): no marker stays *)
+  trace z [] [EWAcquire; EWOpen; ERemove [2; 3] 1; ERemoveAll; EDump; EDrop; EDump;
+              EWAcquire; EWOpen; EUpdate [2; 3; 4] 16 7; ECommit; EDump; EAcquire 0; EQuery 0 [2; 3] 1; EQuery 0 [2; 3; 4] 16]
+  = [OGranted; ODump [1; 0; 1; 0]; ODump [0; 0]; OGranted; ODump [0; 0; 1; 1]; OAnswer (AData 11); OAnswer (AData 7)].
+Proof. reflexivity. Qed.
